@@ -1,17 +1,21 @@
 """C13 — expression typing: well-typed modules accepted, ill-typed ones rejected with a
 located error, never a crash.
 
-Tie: correspondence.  For every module the real front end (`glue.parse_emboss_file`) is
-run (a) up to `annotate_types` to obtain the resolved IR, which an independent walker over
-its JSON form turns into the Lean model's input (op `TYPE`), and (b) completely; the
-model's outcome (accepted / rejected in pass p with the set of (location, class) /
-crashed at site s) is compared with what the real passes `annotate_types`, `check_types`
-and the attribute validators of `attribute_checker.normalize_and_verify` reported.
+Tie: correspondence.  For every module set (1-3 files: imports, aliases, same-named enums and
+structs in different modules) the real front end (`glue.parse_emboss_file`) is run (a) up to
+`annotate_types` to obtain the resolved IR, which an independent walker over its JSON form
+turns into the Lean model's input (op `TYPE`; every item with the file it is written in,
+every reference with the file of the referred definition), and (b) completely; the model's
+outcome (accepted / rejected in pass p with the set of (location, file of the message, class,
+notes) / crashed at site s) is compared with what the real passes `annotate_types`,
+`check_types` and the attribute validators of `attribute_checker.normalize_and_verify`
+reported.
 
 Spec oracle (Python, no model, no compiler knowledge): the generator knows whether the
-module it wrote follows the documented rules and, if not, which line breaks which rule:
-valid => accepted; mutant => rejected, no exception, with a non-synthetic error whose file
-is the module and whose line is the mutated line.
+module set it wrote follows the documented rules and, if not, which line of which file breaks
+which rule: valid => accepted; mutant => rejected, no exception, with a non-synthetic error
+whose file and line are the mutated ones; boundary module (many offending lines, arities far
+beyond the usual) => the set of lines with a non-synthetic error is exactly the offending set.
 """
 import json
 import os
@@ -30,7 +34,7 @@ FUNC_NAMES = {"ADDITION": 1, "SUBTRACTION": 2, "MULTIPLICATION": 3, "EQUALITY": 
               "MAXIMUM": 13, "PRESENCE": 14, "UPPER_BOUND": 15, "LOWER_BOUND": 16}
 EXPR_KEYS = ("constant", "constant_reference", "function", "field_reference", "boolean_constant",
              "builtin_reference")
-ATTR_KINDS = {"is_signed": "signed", "is_integer": "isint", "requires": "bool", "static_requirements": "bool",
+ATTR_KINDS = {"is_signed": "boolconst", "is_integer": "boolconst", "requires": "bool", "static_requirements": "bool",
               "addressable_unit_size": "int", "maximum_bits": "int", "fixed_size_in_bits": "int",
               "byte_order": "strlist", "text_output": "strlist", "expected_back_ends": "backends"}
 STR_VALUES = {"byte_order": {"BigEndian", "LittleEndian", "Null"}, "text_output": {"Emit", "Skip"}}
@@ -50,6 +54,9 @@ MESSAGES = [
     (r"^If-true clause of operator '\?:' must be an integer, boolean, or enum\.$", lambda m: "chTrue"),
     (r"^The if-true and if-false clauses of operator '\?:' must have the same type\.$", lambda m: "chSame"),
     (r"^Static references to physical fields are not allowed\.$", lambda m: "staticPhys"),
+    (r"^Static references must refer to enum values or virtual fields\.$", lambda m: "staticOther"),
+    (r"^Keyword `.*` may not be used in this context\.$", lambda m: "builtinCtx"),
+    (r"^Enum value must be an integer\.$", lambda m: "posEnumValue"),
     (r"^Start of field must be an integer\.$", lambda m: "posStart"),
     (r"^Size of field must be an integer\.$", lambda m: "posSize"),
     (r"^Array size must be an integer\.$", lambda m: "posArray"),
@@ -62,28 +69,21 @@ MESSAGES = [
     (r"^Attribute '.*' must have a constant boolean value\.$", lambda m: "attrConstBool"),
     (r"^Attribute '.*' must have an integer value\.$", lambda m: "attrInt"),
     (r"^Attribute '.*' must have a constant value\.$", lambda m: "attrConst"),
+    (r"^Attribute '.*' must have a string value\.$", lambda m: "attrString"),
     (r"^Attribute '.*' must be '.*'\.$", lambda m: "attrStr"),
     (r"^Attribute '.*' must be a comma-delimited list of back end specifiers", lambda m: "attrStr"),
 ]
-PASS_OF = [("mustInt", 1), ("mustBool", 1), ("mustField", 1), ("arity", 1), ("cmp", 1), ("ch", 1), ("staticPhys", 1),
-           ("paramArray", 1), ("pos", 2), ("paramKind", 2), ("pass", 2), ("attr", 3)]
+PASS_OF = [("mustInt", 1), ("mustBool", 1), ("mustField", 1), ("arity", 1), ("cmp", 1), ("ch", 1), ("static", 1),
+           ("builtinCtx", 1), ("paramArray", 1), ("pos", 2), ("paramKind", 2), ("pass", 2), ("attr", 3)]
 CRASH_KEYS = {
-    "constRefOther": "crash:type_check.py:_type_check_constant_reference:AssertionError",
-    "arrayParamRef": "crash:type_check.py:_type_check_local_reference:AttributeError",
-    "passedTypeName": "crash:type_check.py:_type_name_for_error_messages:AssertionError",
-    "attrConstBoolExpr": "crash:attribute_util.py:_is_constant_boolean:AttributeError",
-    "attrBackEnds": "crash:attribute_checker.py:_valid_back_ends:AttributeError",
+    "paramTypeNone": "crash:type_check.py:_type_check_parameter:AttributeError",
+    "passedTypeNone": "crash:type_check.py:_type_name_for_error_messages:AttributeError",
+    "attrTypeNone": "crash:attribute_util.py:<validator>:AttributeError",
     "attrSignedNotLiteral": "crash:ir_util.py:get_attribute:AssertionError",
-    "cmpNone": "crash:type_check.py:_type_check_comparison_operator:AttributeError",
-    "chNone": "crash:type_check.py:_type_check_choice_operator:AttributeError",
-    "compatNone": "crash:type_check.py:_types_are_compatible:AttributeError",
 }
 K_BADFILE = "error-file-is-not-a-file-name:type_check._type_check_local_reference"
 K_ENUM_ORD = "enum-operands-to-ordering-comparison-accepted"
 K_ENUM_VALUE = "enum-value-of-enum-type-accepted"
-K_ENUM_VALUE_BOOL = "enum-value-of-boolean-type-accepted"
-K_PASS_ENUM = "passed-enum-parameter-of-a-different-enum-accepted"
-K_ARRAY_SUB = "array-length-with-non-integer-subexpression-rejected"
 
 
 def classify_message(msg):
@@ -116,7 +116,8 @@ class Walker:
         self.ird = ird
         self.objs = {}       # (module_file, path tuple) -> (kind, node, module_file)
         self.locs = {}       # (file, locstr) -> id
-        self.enum_ids = {}
+        self.files = {}      # file name -> id
+        self.enum_ids = {}   # (module_file, object path) -> id: an enum is its definition, not its name
         self.size = 0
         for mod in ird["module"]:
             mf = mod.get("source_file_name", "")
@@ -137,6 +138,11 @@ class Walker:
             self.objs[self._cn(v)] = ("enumvalue", v, mf)
         for st in td.get("subtype", []):
             self._index_type(st, mf)
+
+    def fid(self, file):
+        if file not in self.files:
+            self.files[file] = len(self.files)
+        return self.files[file]
 
     def loc(self, file, node):
         s = node.get("source_location", "") if isinstance(node, dict) else str(node)
@@ -194,7 +200,7 @@ class Walker:
                 return "bi %s 1" % l
             if nm == "$static_size_in_bits":
                 return "bi %s 0" % l
-            raise Unmodelled("builtin " + nm)
+            return "bi %s 2" % l        # `$next` where synthetics did not replace it
         if "constant_reference" in e:
             key = self.ref_key(e["constant_reference"])
             kind, node, mf = self.objs.get(key, (None, None, None))
@@ -205,8 +211,8 @@ class Walker:
                 return "e %s %d" % (l, self.enum_ids[ek])
             if kind == "field":
                 if "read_transform" in node:
-                    return "cv %s %s" % (l, self.expr(node["read_transform"], mf))
-                return "cp %s %s" % (l, self.loc(mf, node))
+                    return "cv %s %d %s" % (l, self.fid(mf), self.expr(node["read_transform"], mf))
+                return "cp %s %d %s" % (l, self.fid(mf), self.loc(mf, node))
             return "co " + l
         if "field_reference" in e:
             path = e["field_reference"]["path"]
@@ -216,7 +222,7 @@ class Walker:
                 t = self.param_ty(node)
                 return ("la " + l) if t is None else "lp %s %s" % (l, t)
             if "read_transform" in node:
-                return "lv %s %s" % (l, self.expr(node["read_transform"], mf))
+                return "lv %s %d %s" % (l, self.fid(mf), self.expr(node["read_transform"], mf))
             ty = node.get("type", {})
             if "atomic_type" in ty:
                 return "lf %s %s" % (l, self.typedef_ty(self.ref_key(ty["atomic_type"]["reference"])))
@@ -237,6 +243,43 @@ class Walker:
             raise Unmodelled("function %r with %d args" % (fn, len(args)))
         raise Unmodelled("expression variety %r" % sorted(e))
 
+    def beyond_closedness(self, e):
+        """Is this a value whose constancy the real compiler may judge differently from
+        closedness?  It mentions a field / parameter / builtin (anywhere, through references)
+        *and* contains a construct that can make such a value constant all the same: the
+        three-valued `&&`, `||`, `?:` folding, a bound function, a static reference (whose
+        value comes from the bounds analysis).  C05's ground: kept out of the correspondence."""
+        st = {"open": False, "fold": False}
+
+        def go(x, depth=0):
+            if depth > 200:
+                return
+            if "field_reference" in x or "builtin_reference" in x:
+                st["open"] = True
+                node = None
+                if "field_reference" in x:
+                    node = self.objs.get(self.ref_key(x["field_reference"]["path"][-1]), (None, None, None))[1]
+                if node and "read_transform" in node:
+                    go(node["read_transform"], depth + 1)
+            elif "constant_reference" in x:
+                kind, node, _ = self.objs.get(self.ref_key(x["constant_reference"]), (None, None, None))
+                if kind == "field":
+                    st["fold"] = True
+                    if "read_transform" in node:
+                        go(node["read_transform"], depth + 1)
+                    else:
+                        st["open"] = True
+            elif "function" in x:
+                fn = x["function"].get("function", 0)
+                if isinstance(fn, str):
+                    fn = FUNC_NAMES.get(fn, 0)
+                if FUNCS.get(fn) in ("and", "or", "choice", "upper", "lower"):
+                    st["fold"] = True
+                for a in x["function"].get("args", []):
+                    go(a, depth + 1)
+        go(e)
+        return st["open"] and st["fold"]
+
     # -- collection of positions (explicit structural walk of the schema)
     def module_line(self):
         exprs, params, locations, arrays, conds, passed, values = [], [], [], [], [], [], []
@@ -248,7 +291,7 @@ class Walker:
         def top_exprs(x, file, under_array=False, under_atomic=False):
             """generic sweep: every top-level Expression below x, in document order."""
             if is_expr(x):
-                exprs.append(self.expr(x, file))
+                exprs.append("%d %s" % (self.fid(file), self.expr(x, file)))
                 return
             if isinstance(x, dict):
                 for k, v in x.items():
@@ -263,7 +306,7 @@ class Walker:
             """expressions below an ArrayType but not below an AtomicType."""
             if is_expr(t):
                 if inside:
-                    arrays.append(self.expr(t, file))
+                    arrays.append("%d %s" % (self.fid(file), self.expr(t, file)))
                 return
             if isinstance(t, dict):
                 for k, v in t.items():
@@ -290,10 +333,11 @@ class Walker:
                 exp = []
                 for p in td.get("runtime_parameter", []):
                     pt = self.param_ty(p)
-                    exp.append("%s %s" % (pt or "U", self.loc(mf, p)))
+                    exp.append("%s %s" % (pt or "N", self.loc(mf, p)))
                 given = [self.expr(g, file) for g in at.get("runtime_parameter", [])]
-                passed.append("%s %s %d %s %d %s" % (self.loc(file, at), self.loc(mf, td), len(exp), " ".join(exp),
-                                                      len(given), " ".join(given)))
+                passed.append("%d %s %d %s %d %s %d %s" % (self.fid(file), self.loc(file, at), self.fid(mf),
+                                                            self.loc(mf, td), len(exp), " ".join(exp),
+                                                            len(given), " ".join(given)))
             if "array_type" in t:
                 atomics(t["array_type"].get("base_type", {}), file)
 
@@ -306,15 +350,18 @@ class Walker:
                 if kind is None:
                     continue
                 v = a.get("value", {})
-                l = self.loc(file, v)
+                l = "%d %s" % (self.fid(file), self.loc(file, v))
+                kind = "%s %d" % (kind, 1 if nm == "is_signed" else 0)
                 if "string_constant" in v:
                     txt = v["string_constant"].get("text", "")
-                    if kind == "backends":
+                    if nm == "expected_back_ends":
                         ok = re.fullmatch(BACK_ENDS_RE, txt) is not None
                     else:
                         ok = txt in STR_VALUES.get(nm, ())
                     out.append("%s %s s%d" % (l, kind, 1 if ok else 0))
                 elif "expression" in v:
+                    if ATTR_KINDS[nm] in ("boolconst", "int") and self.beyond_closedness(v["expression"]):
+                        raise Unmodelled("constancy: attribute value is not closed but may fold to a constant")
                     out.append("%s %s x %s" % (l, kind, self.expr(v["expression"], file)))
                 else:
                     raise Unmodelled("attribute value %r" % sorted(v))
@@ -324,16 +371,17 @@ class Walker:
             for p in td.get("runtime_parameter", []):
                 pt = self.param_ty(p)
                 pl = self.loc(file, p["physical_type_alias"])
+                pl = "%d %s" % (self.fid(file), pl)
                 params.append("%s A" % pl if pt is None else "%s T %s" % (pl, pt))
                 arrays_under(p["physical_type_alias"], file, False)
                 atomics(p["physical_type_alias"], file)
             for f in td.get("structure", {}).get("field", []):
                 attrs(f.get("attribute", []), file, attrs_field)
                 if "location" in f:
-                    locations.append("%s %s" % (self.expr(f["location"]["start"], file),
-                                                self.expr(f["location"]["size"], file)))
+                    locations.append("%d %s %s" % (self.fid(file), self.expr(f["location"]["start"], file),
+                                                   self.expr(f["location"]["size"], file)))
                 if "existence_condition" in f:
-                    conds.append(self.expr(f["existence_condition"], file))
+                    conds.append("%d %s" % (self.fid(file), self.expr(f["existence_condition"], file)))
                 else:
                     raise Unmodelled("field without existence_condition")
                 if "type" in f:
@@ -341,7 +389,7 @@ class Walker:
                     atomics(f["type"], file)
             for v in td.get("enumeration", {}).get("value", []):
                 attrs(v.get("attribute", []), file, attrs_val)
-                values.append(self.expr(v["value"], file))
+                values.append("%d %s" % (self.fid(file), self.expr(v["value"], file)))
             for st in td.get("subtype", []):
                 walk_type(st, file)
 
@@ -356,7 +404,7 @@ class Walker:
         def sec(tag, items):
             return "%s %d %s" % (tag, len(items), " ".join(items))
         return "TYPE " + " ".join([sec("X", exprs), sec("P", params), sec("L", locations), sec("A", arrays),
-                                   sec("C", conds), sec("S", passed), sec("V", values), sec("T", allattrs)])
+                                   sec("C", conds), sec("V", values), sec("S", passed), sec("T", allattrs)])
 
 
 class Unmodelled(Exception):
@@ -379,7 +427,7 @@ def real_outcome(files, main="m.emb"):
         cls = classify_message(first.message.split("\n")[0])
         badfile = not isinstance(first.source_file, str)
         if badfile:
-            f = getattr(getattr(first.source_file, "canonical_name", None), "module_file", "?")
+            f = "<not a file name: %s>" % type(first.source_file).__name__
         else:
             f = first.source_file
         notes = [(n.source_file if isinstance(n.source_file, str) else "?", str(n.location)) for n in g[1:]]
@@ -406,8 +454,8 @@ def canon_real(out, w):
     if out["kind"] == "rejected":
         es = set()
         for g in out["groups"]:
-            s = "%s:%s%s" % (w.loc_of_str(g["file"], g["loc"]), g["cls"], ":badfile" if g["bad"] else "")
-            s += "".join("+" + w.loc_of_str(f, l) for f, l in g["notes"])
+            s = "%s@%d:%s" % (w.loc_of_str(g["file"], g["loc"]), w.fid(g["file"]), g["cls"])
+            s += "".join("+%s@%d" % (w.loc_of_str(f, l), w.fid(f)) for f, l in g["notes"])
             es.add(s)
         return "rejected %d %s" % (out["pass"], ";".join(sorted(es)))
     return "other"
@@ -437,33 +485,60 @@ def model_input(files, main="m.emb"):
 
 
 # ---------------------------------------------------------------- spec oracle
+CONST_ATTRS = "fixed_size_in_bits|is_signed|is_integer|maximum_bits|addressable_unit_size"
+
+
+def narrow_key(case, out):
+    """crash site + the narrow predicate over the input under which an *open* finding is known to
+    raise there; any other input raising at the same site keeps the bare site as key and is
+    reported as a new violation."""
+    key = out["key"]
+    texts = list((case.get("files") or {"m.emb": case.get("text", "")}).values())
+    exc = out.get("exc", "")
+
+    def has(pat):
+        return any(re.search(pat, t) for t in texts)
+    if key == "crash:ir_util.py:get_attribute:AssertionError":
+        if has(r"\[is_signed:\s*(?!(true|false)\s*\])"):
+            key += ":is_signed-not-literal"
+    elif key == "crash:ir_util.py:constant_value:AssertionError":
+        if has(r"\[(%s):[^\]\n]*\b[A-Z][A-Za-z0-9]*\.[a-z_]" % CONST_ATTRS):
+            key += ":static-reference-in-constant-attribute"
+    elif key == "crash:expression_bounds.py:_compute_constraints_of_existence_function:AttributeError":
+        if "'RuntimeParameter'" in exc:
+            key += ":present-of-parameter"
+    return key
+
+
+
 def oracle(case, out):
     """case: dict(text, expect='accept'|'reject', line, rule).  Returns (why, key) or None."""
     if out["kind"] == "crashed":
-        key = out["key"]
-        if key == "crash:attribute_util.py:_is_constant_boolean:AttributeError" and \
-                not case.get("rule", "").endswith("-string"):
-            # the open finding is about *expression* values; a string value crashing here again would
-            # be the regression of fix 3424c1b and must be reported
-            key += ":non-boolean-expression-value"
-        if case.get("rule", "").startswith("position:enum-value"):
-            # same defect: the value is never type-checked, then folded as an integer
-            key = K_ENUM_VALUE_BOOL if case["rule"].endswith(":bool") else K_ENUM_VALUE
-        return "uncaught exception %s" % out["exc"], key
+        return "uncaught exception %s" % out["exc"], narrow_key(case, out)
     for g in out.get("groups", []):
         if g["bad"]:
             return ("an error message carries a non-string source_file (%s): it cannot be rendered "
                     "(embossc raises TypeError)" % g["msg"]), K_BADFILE
+    if case["expect"] == "lines":
+        want = set((f, l) for f, ls in case["lines"].items() for l in ls)
+        got = set((g["file"], int(g["loc"].split(":")[0])) for g in out.get("groups", [])
+                  if not g["syn"] and g["loc"] and g["loc"][0].isdigit())
+        if out["kind"] != "rejected":
+            return "module breaking rules on %d lines: %s" % (len(want), out["kind"]), None
+        missing, extra = sorted(want - got), sorted(got - want)
+        if missing or extra:
+            return ("offending lines without an error: %s; well-typed lines with an error: %s" % (
+                missing[:8], [(f, l, [g["msg"] for g in out["groups"] if g["file"] == f and
+                                      g["loc"].startswith("%d:" % l)][:1]) for f, l in extra[:8]])), None
+        return None
     if case["expect"] == "accept":
         if out["kind"] == "rejected":
             key = None
-            if any(g["cls"] == "posArray" for g in out["groups"]) and case.get("array_nonint"):
-                key = K_ARRAY_SUB
             return "well-typed module rejected: %s" % [(g["loc"], g["msg"]) for g in out["groups"]][:3], key
         return None            # accepted, or rejected by a check outside C13 ('other')
     # expect reject
     groups = out.get("groups", [])
-    good = [g for g in groups if not g["syn"] and g["file"] == "m.emb"
+    good = [g for g in groups if not g["syn"] and g["file"] == case.get("file", "m.emb")
             and g["loc"].split(":")[0] == str(case["line"])]
     if out["kind"] == "other" and not good and not out.get("late"):
         return None     # stopped by an earlier, unrelated check: says nothing about typing
@@ -473,10 +548,8 @@ def oracle(case, out):
         rule = case.get("rule", "")
         if rule.startswith("comparison:") and rule.endswith(":enum-enum"):
             key = K_ENUM_ORD
-        elif rule.startswith("position:enum-value"):
-            key = K_ENUM_VALUE_BOOL if rule.endswith(":bool") else K_ENUM_VALUE
-        elif rule == "parameter:pass-other-enum":
-            key = K_PASS_ENUM
+        elif rule.startswith("position:enum-value") and rule.endswith(":enum"):
+            key = K_ENUM_VALUE
         return "module breaking rule %s on line %d was accepted by the typing passes" % (rule, case["line"]), key
     if not good:
         return ("rule %s broken on line %d but no non-synthetic error is located on that line: %s" % (
@@ -513,53 +586,99 @@ def testdata_cases():
 
 
 def gen_cases(r, n, tier):
-    """yield case dicts from the generator: valid, then mutants."""
+    """yield case dicts from the generator: valid module sets (1-3 files), then mutants (one
+    rule broken on one line of one file)."""
     for i in range(n):
         maxd = 6
-        # a small share of the valid stream deliberately enters the open findings' predicates
-        flavour = r.choice(["plain"] * 12 + ["array-nonint", "const-bounds", "signed-nonliteral"])
-        m = c13gen.gen_valid(r, maxdepth=maxd, n_items=r.randint(4, 14),
-                             steer_array_bool=flavour != "array-nonint", const_bounds=flavour == "const-bounds",
-                             signed_literal=flavour != "signed-nonliteral")
+        # a small share of the valid stream deliberately enters the open finding's predicate
+        flavour = r.choice(["plain"] * 14 + ["signed-nonliteral"])
+        mods = c13gen.gen_set(r, maxdepth=maxd, n_items=r.randint(4, 14),
+                              signed_literal=flavour != "signed-nonliteral")
+        m = mods["m.emb"]
         ops = {}
-        for s in m.sites:
-            c13gen.ops_of(s["expr"], ops)
-        case = {"text": m.text(), "expect": "accept", "rule": "valid", "line": 0, "ops": ops, "flavour": flavour,
-                "array_nonint": any(s["pos"] == "array-length" and c13gen.has_nonint_sub(s["expr"], "int")
-                                    for s in m.sites),
+        maxarity = 0
+        for mm in mods.values():
+            for s in mm.sites:
+                c13gen.ops_of(s["expr"], ops)
+                maxarity = max(maxarity, c13gen.max_arity(s["expr"]))
+        case = {"files": {k: v.text() for k, v in mods.items()}, "expect": "accept", "rule": "valid", "line": 0,
+                "ops": ops, "flavour": flavour, "nfiles": len(mods), "max_arity": maxarity,
+                "nested": bool(m.meta.get("nested")),
                 "depth": m.meta["depth"], "positions": sorted(set(s["pos"] for s in m.sites))}
         yield case
         for _ in range(2):
-            m2 = c13gen.gen_valid(r, maxdepth=r.randint(1, 4), n_items=r.randint(3, 9))
+            mods2 = c13gen.gen_set(r, maxdepth=r.randint(1, 4), n_items=r.randint(3, 9))
+            target = "m.emb" if len(mods2) == 1 or r.random() < 0.75 else r.choice(sorted(set(mods2) - {"m.emb"}))
             info = None
             for _try in range(8):
-                info = c13gen.mutate(r, m2)
+                info = c13gen.mutate(r, mods2[target])
                 if info:
                     break
             if not info:
                 continue
-            yield {"text": m2.text(), "expect": "reject", "rule": info["rule"], "line": info["line"],
-                   "pos": info["pos"], "detail": info.get("expr", "")}
+            yield {"files": {k: v.text() for k, v in mods2.items()}, "expect": "reject", "rule": info["rule"],
+                   "line": info["line"], "file": target, "nfiles": len(mods2),
+                   "pos": info["pos"], "detail": info.get("detail") or info.get("expr", "")}
+
+
+def boundary_cases(r):
+    """Deterministic sweeps over the sizes of every n-ary construct (arities well beyond the
+    usual) and over the same-named-enum matrix; each module breaks the rules on *many* known
+    lines at once (`annotate_types` / `check_types` report every offence of their pass), and
+    must be clean on the others."""
+    return [dict(c, expect="lines") for c in c13gen.boundary_modules(r)]
 
 
 # ---------------------------------------------------------------- run
+NPROC = int(os.environ.get("C13_NPROC", "3"))
+
+
+def _work(arg):
+    """one case on the real front end (forked worker): real outcome, model input, canonical real outcome."""
+    case, model_ok = arg
+    files = case.get("files") or {"m.emb": case["text"]}
+    main = case.get("main", "m.emb")
+    out = real_outcome(files, main)
+    line, why, cr = None, None, None
+    if model_ok:
+        line, w = model_input(files, main)
+        if line is None:
+            why = w
+        else:
+            cr = canon_real(out, w)
+    return out, line, why, cr
+
+
 def evaluate(chk, cases, model_ok, stats):
     """cases: list of dicts with files/text.  Runs real + oracle; then the model in one batch."""
     ops, pending = [], []
-    for case in cases:
+    args = [(c, model_ok) for c in cases]
+    if NPROC > 1 and len(cases) > 3:
+        import multiprocessing
+        with multiprocessing.get_context("fork").Pool(NPROC) as pool:
+            results = pool.map(_work, args, chunksize=2)
+    else:
+        results = [_work(a) for a in args]
+    for case, (out, line, why, cr) in zip(cases, results):
         files = case.get("files") or {"m.emb": case["text"]}
         main = case.get("main", "m.emb")
-        out = real_outcome(files, main)
         chk.count()
         stats["real_" + out["kind"]] = stats.get("real_" + out["kind"], 0) + 1
         if case.get("expect"):
             verdict = oracle(case, out)
             if verdict:
-                why, key = verdict
-                chk.violation("input", {"input": case.get("text") or files, "main": main,
-                                        "expected": "accepted" if case["expect"] == "accept" else
-                                        "rejected with a located error on line %s (rule %s)" % (case.get("line"), case.get("rule")),
-                                        "observed": why, "rule": case.get("rule")}, key=key)
+                why_, key = verdict
+                if case["expect"] == "accept":
+                    exp = "accepted"
+                elif case["expect"] == "lines":
+                    exp = "rejected, with a non-synthetic error on each of the lines %s and on no other line" % (
+                        json.dumps(case["lines"])[:300])
+                else:
+                    exp = "rejected with a located error on line %s of %s (rule %s)" % (
+                        case.get("line"), case.get("file", "m.emb"), case.get("rule"))
+                chk.violation("input", {"input": case.get("text") or files, "main": main, "expected": exp,
+                                        "observed": why_, "rule": case.get("rule"), "detail": case.get("detail")},
+                              key=key)
                 stats["oracle_failures"] = stats.get("oracle_failures", 0) + 1
         if out["kind"] == "rejected":
             for g in out["groups"]:
@@ -570,27 +689,36 @@ def evaluate(chk, cases, model_ok, stats):
             stats["crash_sites"][out["key"]] = stats["crash_sites"].get(out["key"], 0) + 1
         if not model_ok:
             continue
-        line, w = model_input(files, main)
         if line is None:
-            stats["no_model_input:" + w.split(":")[0]] = stats.get("no_model_input:" + w.split(":")[0], 0) + 1
+            stats["no_model_input:" + why.split(":")[0]] = stats.get("no_model_input:" + why.split(":")[0], 0) + 1
             continue
         ops.append(line)
-        pending.append((case, files, main, out, w))
+        pending.append((case, files, main, out, cr))
     if not ops:
         return
     answers = common.Model("model_c13").ask(ops)
-    for (case, files, main, out, w), op, ans in zip(pending, ops, answers):
+    for (case, files, main, out, cr), op, ans in zip(pending, ops, answers):
         stats["model_compared"] = stats.get("model_compared", 0) + 1
         if ans == "bad-op":
             chk.violation("correspondence", {"input": case.get("text") or files, "op": op[:2000], "model": ans,
                                              "theorem_or_correspondence": "walker produced an op the driver rejects"},
                           found_input=False)
             continue
-        cm, cr = canon_model(ans), canon_real(out, w)
+        cm = canon_model(ans)
         if cr == "other":
             # rejected by a check that is not C13's: the modelled passes must not have objected
             # (errors of one pass only are ever reported), unless an earlier unmodelled pass stopped first
             stats["real_other_model_" + cm.split(" ")[0]] = stats.get("real_other_model_" + cm.split(" ")[0], 0) + 1
+            if out.get("late") and cm.startswith(("rejected 1", "rejected 2", "crashed")):
+                # annotate_types / check_types let the module through (another check objected, in their pass
+                # or later) although the model rejects it there
+                stats["disagreements"] = stats.get("disagreements", 0) + 1
+                if not (case.get("expect") and oracle(case, out)):
+                    chk.violation("correspondence", {
+                        "input": case.get("text") or files, "main": main, "op": op[:3000], "model": cm,
+                        "observed": "passed annotate_types/check_types; rejected later: %s" % out.get("unknown"),
+                        "rule": case.get("rule"),
+                        "theorem_or_correspondence": "model_c13 TYPE vs glue.parse_emboss_file"}, found_input=False)
             continue
         chk.nontrivial(cm)
         if cm != cr:
@@ -600,7 +728,7 @@ def evaluate(chk, cases, model_ok, stats):
                 continue        # already reported as a failing input (or known finding) above
             chk.violation("correspondence", {
                 "input": case.get("text") or files, "main": main, "op": op[:3000], "model": cm, "observed": cr,
-                "expected": "model and real front end agree on outcome, pass, and (location, class) set",
+                "expected": "model and real front end agree on outcome, pass, and (location, file, class) set",
                 "rule": case.get("rule"),
                 "theorem_or_correspondence": "model_c13 TYPE vs glue.parse_emboss_file"},
                 found_input=False)
@@ -612,11 +740,15 @@ def run_known_findings(chk):
         if k.get("property") != PROP or k.get("status") != "open":
             continue
         case = {"text": k["input"], "expect": k.get("expect", "reject"), "line": k.get("line", 0),
-                "rule": k.get("rule", "known"), "array_nonint": True}
+                "rule": k.get("rule", "known")}
         out = real_outcome({"m.emb": k["input"]})
         verdict = oracle(case, out)
-        if verdict:
+        if verdict and verdict[1] == k["key"]:
             chk.report_known(k)
+        elif verdict:
+            # the pinned input fails, but not in the way the finding describes: a different defect
+            chk.violation("input", {"input": k["input"], "expected": "as in the open finding %s" % k["key"],
+                                    "observed": verdict[0], "rule": case["rule"]}, key=verdict[1])
 
 
 def search(chk):
@@ -624,7 +756,7 @@ def search(chk):
     before = len(chk.violations)
     r = common.rng("C13-search")
     stats = {}
-    cases = [c for c in corpus_cases()] + list(gen_cases(r, 60, "quick"))
+    cases = [c for c in corpus_cases()] + boundary_cases(common.rng("C13-boundary")) + list(gen_cases(r, 60, "quick"))
     evaluate(chk, cases, False, stats)
     return len(chk.violations) - before
 
@@ -632,7 +764,7 @@ def search(chk):
 def run(tier):
     chk = common.Check(PROP, tier, exes=["model_c13"])
     chk.cov["rule"] = ("modules from the type-directed generator (valid + one catalogue mutation), /repo/testdata, "
-                       "corpus/C13; non-trivial = distinct canonical outcome (accepted / rejected pass + "
+                       "corpus/C13, boundary sweeps (arity of every n-ary construct, namesake enums across modules); non-trivial = distinct canonical outcome (accepted / rejected pass + "
                        "(location, class) set / crash site) on which model and real front end were compared")
     model_ok = common.proof_gate(chk, search)
     stats = {}
@@ -644,13 +776,27 @@ def run(tier):
         cases.append({"files": td, "main": name, "name": name})
     evaluate(chk, cases, model_ok, stats)
     stats["corpus_and_testdata"] = len(cases)
-    # 2. generated
+    # 2. boundary enumeration: arities of every n-ary construct, same-named enums of different modules
+    bnd = boundary_cases(common.rng("C13-boundary"))
+    evaluate(chk, bnd, model_ok, stats)
+    chk.extra["boundary"] = {c["name"]: {"lines": sum(len(t.splitlines()) for t in c["files"].values()),
+                                         "offending_lines": sum(len(v) for v in c["lines"].values()),
+                                         "files": len(c["files"])} for c in bnd}
+    # 3. generated
     r = common.rng("C13")
-    n = 70 if tier == "quick" else 600
+    n = 60 if tier == "quick" else 600
     gen = list(gen_cases(r, n, tier))
-    ops, rules, positions, depths = {}, {}, {}, {}
+    ops, rules, positions, depths, nfiles, arities, mutfile = {}, {}, {}, {}, {}, {}, {}
     for c in gen:
         rules[c["rule"].split(":")[0]] = rules.get(c["rule"].split(":")[0], 0) + 1
+        nfiles[str(c["nfiles"])] = nfiles.get(str(c["nfiles"]), 0) + 1
+        if "max_arity" in c:
+            b = "<=3" if c["max_arity"] <= 3 else "4-8" if c["max_arity"] <= 8 else "9-16" if c["max_arity"] <= 16 else ">16"
+            arities[b] = arities.get(b, 0) + 1
+        if c["expect"] == "reject":
+            mutfile[c["file"]] = mutfile.get(c["file"], 0) + 1
+        if c.get("nested"):
+            nfiles["with-nested-inline-types"] = nfiles.get("with-nested-inline-types", 0) + 1
         for k, v in c.get("ops", {}).items():
             ops[k] = ops.get(k, 0) + v
         for p in c.get("positions", []):
@@ -660,15 +806,19 @@ def run(tier):
     for i in range(0, len(gen), 200):
         evaluate(chk, gen[i:i + 200], model_ok, stats)
     for c in gen[:2] + [c for c in gen if c["expect"] == "reject"][:3]:
-        chk.sample({"rule": c["rule"], "line": c["line"], "emb": c["text"][:1500]})
-    chk.extra["generator"] = {"modules": len(gen), "rules": rules, "operators_in_valid_modules": ops,
-                              "positions_in_valid_modules": positions, "nesting_depth_of_valid_modules": depths}
+        chk.sample({"rule": c["rule"], "line": c["line"], "file": c.get("file"),
+                    "emb": {k: v[:1200] for k, v in c["files"].items()}})
+    chk.extra["generator"] = {"module_sets": len(gen), "rules": rules, "operators_in_valid_modules": ops,
+                              "positions_in_valid_modules": positions, "nesting_depth_of_valid_modules": depths,
+                              "files_per_set": nfiles, "largest_call_arity_in_valid_sets": arities,
+                              "mutated_file": mutfile}
     chk.extra["stats"] = stats
     chk.extra["traces_validated_against_impl"] = stats.get("model_compared", 0)
     chk.extra["disagreements"] = stats.get("disagreements", 0)
     chk.assumptions = [
         "name resolution (C12) is taken from the real IR: the walker inlines the read_transform of referenced virtual fields",
         "constancy of attribute values is approximated by closedness (no field/parameter reference); constant folding is C05's",
+        "three unguarded `.type.which_type` reads (check_types on an array parameter / an untyped argument, attribute validators on an untyped value) are modelled as raising; they are reachable only after annotate_types reported errors that are all synthetic (C13_total_partial)",
         "attribute placement / duplicates / unknown names are C14's; only the value typing of the ten front-end attributes is modelled",
     ]
     chk.trusted.append("harness/corr/C13.py Walker: JSON IR -> model input (independent re-reading of the schema)")
